@@ -167,7 +167,9 @@ def make_payload(kind: str, n: int, prefix: bytes, salt: int) -> bytes:
 
 
 KINDS = ["dht", "utp", "utp_badver", "tracker", "ipv8_other", "ipv8_tunnel", "ipv8_v3", "short_ipv8", "bare_tunnel", "junk"]
-DESTS = [["5.5.5.5", 5555], ["2001:db8::5", 5555], ["example.com", 80], ["unknown.invalid", 80], ["0.0.0.0", 0]]
+DESTS = [["5.5.5.5", 5555], ["2001:db8::5", 5555], ["example.com", 80], ["unknown.invalid", 80], ["0.0.0.0", 0],
+         ["zero.example", 0]]       # a host name that resolves to 0.0.0.0
+NULL_DESTS = ("0.0.0.0", "zero.example")
 
 
 class Emission:
@@ -185,6 +187,7 @@ class Emission:
         exit_flags = fs | ({RELAY} if c["relay"] else set())
         hops = c["hops"]
         loop.hosts["example.com"] = "93.184.216.34"
+        loop.hosts["zero.example"] = "0.0.0.0"
 
         def flags(i: int) -> set:
             return exit_flags if i == hops else {RELAY, EXIT_BT, EXIT_IPV8, SPEED}
@@ -197,7 +200,7 @@ class Emission:
             self.info["cls"] = "emit:%s:%s:%s" % (c["direction"], c["kind"], "allow" if want else "deny")
             self.info["nontrivial"] = (not want) or boundary(payload) or c["dest"][0] == "0.0.0.0" or c["first_src"] != "prev"
             self.info["desc"] = (tuple(sorted(exit_flags)), c["kind"], len(payload), c["direction"], c["dest"][0],
-                                 c["first_src"], hops)
+                                 c["first_src"], hops, tuple(map(tuple, c.get("followups", []))))
             exit_peer = [p for p in origin.overlay.candidates if p.public_key.key_to_bin() == exit_node.key.pub().key_to_bin()][0]
             if not exit_flags:
                 # a node without any flag ignores create requests: no circuit, nothing can be emitted
@@ -219,7 +222,16 @@ class Emission:
                 dest = UDPv4Address(*dest_t)
             else:
                 dest = DomainAddress(*dest_t)
-            resolved = {"example.com": ("93.184.216.34", 80)}.get(dest_t[0], dest_t)
+            def mk_dest(dt: tuple):
+                if ":" in dt[0]:
+                    return UDPv6Address(*dt)
+                if dt[0][0].isdigit():
+                    return UDPv4Address(*dt)
+                return DomainAddress(*dt)
+
+            def resolve(dt: tuple) -> tuple:
+                return {"example.com": ("93.184.216.34", 80), "zero.example": ("0.0.0.0", 0)}.get(dt[0], dt)
+            resolved = resolve(dest_t)
             prev = ([origin] + w.path(circuit))[-2]
 
             # (c) who delivers the first data cell to the exit
@@ -254,12 +266,34 @@ class Emission:
                                               "previous hop's IP address")
                 return
             if c["direction"] == "out":
-                opener_ok = want and dest_t[0] not in ("0.0.0.0", "unknown.invalid")
+                opener_ok = want and dest_t[0] not in NULL_DESTS + ("unknown.invalid",)
                 expected = [(payload, resolved)] if opener_ok else []
                 if emitted != expected:
                     self.fail("P5" if expected else "P2", "outbound:" + c["kind"],
                               f"emitted {[(d[:16].hex(), a) for d, a in emitted]}, expected "
                               f"{[(d[:16].hex(), a) for d, a in expected]} (flags {sorted(fs)}, dest {dest_t})")
+                # later packets on the same circuit: the gate must not depend on the socket being fresh
+                for j, (kind2, size2, di) in enumerate(c.get("followups", [])):
+                    dt2 = tuple(DESTS[di % len(DESTS)])
+                    p2 = make_payload(kind2, size2, prefix, c["seed"] + j + 1)
+                    want2 = ref_allowed(p2, fs, prefix) and dt2[0] not in NULL_DESTS + ("unknown.invalid",)
+                    n0 = {id(t): len(t.sent) for t in loop.transports}
+                    origin.overlay.send_data(circuit.hop.address, circuit.circuit_id, mk_dest(dt2), ("0.0.0.0", 0), p2)
+                    await asyncio.sleep(0.3)
+                    new = [(d, tuple(a)) for t in loop.transports for (d, a) in t.sent[n0.get(id(t), 0):]]
+                    for d, a in new:
+                        if a[0] in ("0.0.0.0", "::") and a[1] == 0:
+                            self.fail("P3", "sendto:later_packet", f"packet {j + 2} of the circuit was emitted towards the "
+                                                                   f"null address (destination given as {dt2})")
+                        if not ref_allowed(d, fs, prefix):
+                            self.fail("P2", "sendto:later_packet:" + kind2, f"packet {j + 2} of the circuit: outside socket "
+                                      f"emitted forbidden data {d[:24].hex()} under exit flags {sorted(fs)}")
+                    exp2 = [(p2, resolve(dt2))] if want2 else []
+                    if new != exp2:
+                        self.fail("P5" if exp2 else "P2", "outbound:later_packet:" + kind2,
+                                  f"packet {j + 2} of the circuit: emitted {[(d[:16].hex(), a) for d, a in new]}, expected "
+                                  f"{[(d[:16].hex(), a) for d, a in exp2]} (flags {sorted(fs)}, dest {dt2})")
+                    self.info["nontrivial"] = True
                 return
             # inbound: the opener (a bencoded dict) opened the socket only if BT exit is allowed
             trs = [t for t in loop.transports if t.local_addr[0] == "0.0.0.0" and not t.closed]
@@ -325,6 +359,8 @@ def _strategy():
         "dest": st.sampled_from(DESTS + DESTS[:2]),
         "direction": st.sampled_from(["out", "out", "in"]),
         "first_src": st.sampled_from(["prev", "prev", "prev", "same_ip_other_port", "other_ip"]),
+        "followups": st.lists(st.tuples(st.sampled_from(KINDS), st.sampled_from([2, 12, 23, 64, 300]),
+                                        st.integers(0, len(DESTS) - 1)).map(list), max_size=3),
         "seed": st.integers(0, 1000),
     })
 
